@@ -1,5 +1,284 @@
-import StraxModel.Model.Basic
+import StraxModel.Lemmas.Selection
+/-
+  Property C10 — time-range, row and column selections commute with chunking and storage.
+  Only property theorems and non-vacuity examples; the work is in Lemmas/Selection.lean.
+
+  Vocabulary (Model/Selection.lean): `loadRange s r` = the chunks `StorageBackend.loader` yields for
+  the stored layout `s` and the range `r` (pruning + `apply_time_range`); `select m r p` = the rows
+  `apply_selection` keeps in mode `m`; `getArray fields s a sel` = `Context.get_array` of one stored
+  target; `LawAbiding s` = decidable hypothesis "ordinary stored data obeying the laws of chunking".
+  `RealMode m` = `fully_contained` or `touching`.
+-/
 namespace Strax.C10
-open Strax
+open Strax Strax.Selection
+
+/-- the stored run used by the non-vacuity examples: five rows in three chunks -/
+private def exLayout : List Chunk := [
+  ⟨"src", "things", some "0", 8, 16, [⟨10, 14, 0⟩, ⟨12, 16, 1⟩], none, [⟨"0", 8, 16⟩], 1000⟩,
+  ⟨"src", "things", some "0", 16, 20, [⟨16, 18, 2⟩], none, [⟨"0", 16, 20⟩], 1000⟩,
+  ⟨"src", "things", some "0", 20, 26, [⟨20, 22, 3⟩, ⟨20, 24, 4⟩], none, [⟨"0", 20, 26⟩], 1000⟩]
+
+/-- the same rows in one giant chunk -/
+private def exGiant : List Chunk := [
+  ⟨"src", "things", some "0", 8, 26, [⟨10, 14, 0⟩, ⟨12, 16, 1⟩, ⟨16, 18, 2⟩, ⟨20, 22, 3⟩, ⟨20, 24, 4⟩], none,
+    [⟨"0", 8, 26⟩], 1000⟩]
+
+example : LawAbiding exLayout ∧ LawAbiding exGiant ∧ allRows exLayout = allRows exGiant ∧
+    span exLayout = some (8, 26) ∧ span exGiant = some (8, 26) := by decide
+
+/-! ## 1. the loader is total on law-abiding data and the selection commutes with it -/
+
+/-- `range_commutes` (DESIGN §6): for EVERY range (also empty and reversed ones), both modes and every
+row predicate, concatenating `select` over the chunks the loader yields = `select` on all stored rows.
+Includes totality: the left early split and the right strict split (`CannotSplit` swallowed) never
+fail on law-abiding data. -/
+theorem range_commutes (s : List Chunk) (r : Range) (m : Mode) (p : Row → Bool)
+    (hs : LawAbiding s) (hm : RealMode m) :
+    ∃ cs, loadRange s r = .ok cs ∧
+      cs.flatMap (fun c => select m r p c.rows) = select m r p (allRows s) := by
+  obtain ⟨cs, h1, h2, -⟩ := loadRange_spec s r (chunks_of_lawAbiding hs)
+  exact ⟨cs, h1, h2 m p hm⟩
+
+-- the right edge straddled by row 1 ([12,16) vs t1 = 14): `CannotSplit` is swallowed, the chunk stays whole;
+-- the left edge is split early at 10
+example : (loadRange exLayout (11, 14)).map (·.map fun c => (c.start, c.stop, ids c.rows)) = .ok [(10, 16, [0, 1])] := by
+  decide +kernel
+example : (loadRange exGiant (17, 21)).map (·.map fun c => (c.start, c.stop, ids c.rows)) = .ok [(16, 26, [2, 3, 4])] := by
+  decide +kernel
+
+/-- what the loader drops is invisible to both modes, chunk by chunk -/
+theorem apply_time_range_invisible (c : Chunk) (r : Range) (m : Mode) (p : Row → Bool)
+    (hc : LawAbiding [c]) (hm : RealMode m) :
+    ∃ c', applyTimeRange c r = .ok c' ∧ select m r p c'.rows = select m r p c.rows := by
+  obtain ⟨hok, hp⟩ := chunks_of_lawAbiding hc c (by simp)
+  exact select_applyTimeRange hm hok hp
+
+/-! ## 2. when no chunk is seen -/
+
+/-- the loader yields no chunk exactly when every chunk is pruned (`end ≤ t0 ∨ t1 ≤ start`) -/
+theorem no_chunk_iff_all_pruned (s : List Chunk) (r : Range) (hs : LawAbiding s) :
+    loadRange s r = .ok [] ↔ ∀ c ∈ s, pruned c r = true := by
+  obtain ⟨cs, h1, -, h3⟩ := loadRange_spec s r (chunks_of_lawAbiding hs)
+  rw [h1]
+  constructor
+  · intro h
+    injection h with h
+    exact h3.1 h
+  · intro h
+    rw [h3.2 h]
+
+/-- for a proper range that is: exactly when the range is disjoint from the span of the run -/
+theorem all_pruned_iff_disjoint (s : List Chunk) (r : Range) (S E : Int) (hs : LawAbiding s)
+    (hspan : span s = some (S, E)) (hr : r.1 < r.2) :
+    (∀ c ∈ s, pruned c r = true) ↔ (r.2 ≤ S ∨ E ≤ r.1) :=
+  all_pruned_iff hs hspan hr
+
+/-- the epilogue of `get_iter`: the exact error kinds -/
+theorem epilogue_error_kinds :
+    epilogue false none = .error .dataCorrupted ∧ (∀ r, epilogue false (some r) = .error .valueError) ∧
+    (∀ r, epilogue true r = .ok ()) := ⟨rfl, fun _ => rfl, fun _ => rfl⟩
+
+/-- `no_chunk_error_iff` (DESIGN §6): with acceptable column arguments and a proper range, `get_array`
+ends in the explicit `ValueError` exactly when the range overlaps no chunk, i.e. is disjoint from
+`[S, E)`. -/
+theorem no_chunk_error_iff (fields : List String) (s : List Chunk) (r : Range) (sel : Sel) (S E : Int)
+    (hs : LawAbiding s) (hspan : span s = some (S, E)) (hr : r.1 < r.2) (hm : RealMode sel.mode)
+    (hcols : colsValidB fields sel = true) :
+    getArray fields s { timeRange := some r } sel = .error .valueError ↔ (r.2 ≤ S ∨ E ≤ r.1) := by
+  rw [getArray_range hs (ne_nil_of_span hspan) hm (r := r) rfl, ← all_pruned_iff hs hspan hr]
+  have hmode : sel.mode ≠ .unknown := by rcases hm with h | h <;> rw [h] <;> decide
+  obtain ⟨cols, -, hok⟩ := applySelection_ok_of (some r) hcols hmode
+  constructor
+  · intro h
+    split at h
+    · rename_i hall
+      simpa [List.all_eq_true] using hall
+    · rw [hok] at h
+      cases h
+  · intro h
+    have : s.all (fun c => pruned c r) = true := by simpa [List.all_eq_true] using h
+    simp [this]
+
+/-- and no other error is possible: a ranged request on law-abiding data either succeeds or raises
+`ValueError` -/
+theorem ranged_request_error_kind (fields : List String) (s : List Chunk) (a : TimeArgs) (r : Range) (sel : Sel)
+    (e : Err) (hs : LawAbiding s) (hne : s ≠ []) (hm : RealMode sel.mode) (ha : toAbsolute s a = .ok (some r))
+    (h : getArray fields s a sel = .error e) : e = .valueError := by
+  rw [getArray_range hs hne hm ha] at h
+  split at h
+  · cases h; rfl
+  · rcases applySelection_shape fields sel (some r) with herr | ⟨cols, hok⟩
+    · rw [herr] at h; cases h; rfl
+    · rw [hok] at h; cases h
+
+example : getArray ["time", "endtime", "id"] exLayout { timeRange := some (0, 8) } {} = .error .valueError ∧
+    getArray ["time", "endtime", "id"] exLayout { timeRange := some (26, 30) } {} = .error .valueError := by
+  decide +kernel
+
+/-! ## 3. a range containing no row gives an empty result, never an error or other rows -/
+
+theorem empty_range_empty (fields : List String) (s : List Chunk) (r : Range) (sel : Sel)
+    (hs : LawAbiding s) (hne : s ≠ []) (hm : RealMode sel.mode) (hcols : colsValidB fields sel = true)
+    (hseen : ∃ c ∈ s, pruned c r = false)
+    (hnone : ∀ x ∈ allRows s, inRange sel.mode r x = false) :
+    ∃ cols, projectCols fields sel.keep sel.drop = .ok cols ∧
+      getArray fields s { timeRange := some r } sel = .ok ([], cols) := by
+  rw [getArray_range hs hne hm (r := r) rfl]
+  have hmode : sel.mode ≠ .unknown := by rcases hm with h | h <;> rw [h] <;> decide
+  obtain ⟨cols, hc, hok⟩ := applySelection_ok_of (some r) hcols hmode
+  refine ⟨cols, hc, ?_⟩
+  have hnot : ¬ (s.all (fun c => pruned c r) = true) := by
+    intro hall
+    obtain ⟨c, hc, hp⟩ := hseen
+    rw [List.all_eq_true] at hall
+    rw [hall c hc] at hp
+    cases hp
+  simp only [hnot, hok, Bool.false_eq_true, if_false]
+  congr 2
+  rw [List.filter_eq_nil_iff]
+  intro x hx
+  simp [keepFn, hnone x hx]
+
+-- the gap [18, 20) of the example run: chunks are seen, no row is selected
+example : getArray ["time", "endtime", "id"] exLayout { timeRange := some (18, 20) } { mode := .touching }
+    = .ok ([], ["time", "endtime", "id"]) := by decide +kernel
+
+/-! ## 4. row selection and column projection commute with chunking -/
+
+/-- `project_commutes` (DESIGN §6): applying `apply_selection` (time mode, row predicate, keep / drop
+columns) chunk by chunk and concatenating — what `get_iter` + `get_array` do — equals applying it once
+to the concatenated rows: same rows, same column list, same error. -/
+theorem project_commutes (fields : List String) (sel : Sel) (r : Option Range) (c : List Row)
+    (chunks : List (List Row)) :
+    collect fields sel r (c :: chunks) = applySelection fields sel r (c :: chunks).flatten :=
+  collect_eq fields sel r c chunks
+
+/-- the column list of the result is the projection of the fields and does not depend on the rows -/
+theorem columns_independent_of_rows (fields : List String) (sel : Sel) (r : Option Range)
+    (rows1 rows2 : List Row) (out1 out2 : List Row × List String)
+    (h1 : applySelection fields sel r rows1 = .ok out1) (h2 : applySelection fields sel r rows2 = .ok out2) :
+    out1.2 = out2.2 ∧ projectCols fields sel.keep sel.drop = .ok out1.2 := by
+  rcases applySelection_shape fields sel r with herr | ⟨cols, hok⟩
+  · rw [herr] at h1; cases h1
+  · have e1 := hok rows1
+    have e2 := hok rows2
+    rw [h1] at e1; rw [h2] at e2
+    injection e1 with e1; injection e2 with e2
+    subst e1 e2
+    refine ⟨rfl, ?_⟩
+    have h0 := hok []
+    unfold applySelection at h0
+    split at h0
+    · cases h0
+    · simp only at h0
+      split at h0
+      · cases h0
+      · split at h0
+        · cases h0
+        · injection h0 with h0
+          injection h0 with _ h0
+          subst h0
+          assumption
+
+example : getArray ["time", "endtime", "id"] exLayout { timeRange := some (11, 21) }
+    { mode := .touching, pred := some fun x => decide (x.id ≥ 1), keep := ["id", "time"] }
+    = .ok ([⟨12, 16, 1⟩, ⟨16, 18, 2⟩, ⟨20, 22, 3⟩, ⟨20, 24, 4⟩], ["time", "id"]) := by decide +kernel
+
+/-! ## 5. the result does not depend on the on-disk chunking -/
+
+/-- Two law-abiding layouts of the same rows over the same span give the same `get_array` result — rows,
+columns and error alike — for every combination of time arguments (`time_range`, `seconds_range`,
+`time_within`) that denotes a proper range or no range, both modes, every predicate and column set.
+(For empty / reversed ranges the statement is false: see `degenerate_range_depends_on_chunking`.) -/
+theorem chunking_independent (fields : List String) (s1 s2 : List Chunk) (a : TimeArgs) (sel : Sel) (S E : Int)
+    (h1 : LawAbiding s1) (h2 : LawAbiding s2) (hrows : allRows s1 = allRows s2)
+    (hspan1 : span s1 = some (S, E)) (hspan2 : span s2 = some (S, E)) (hm : RealMode sel.mode)
+    (hproper : ∀ r, toAbsolute s1 a = .ok (some r) → r.1 < r.2) :
+    getArray fields s1 a sel = getArray fields s2 a sel := by
+  have hcongr := toAbsolute_congr a hspan1 hspan2
+  cases hres : toAbsolute s1 a with
+  | error e =>
+    rw [getArray_error_toAbsolute hres, getArray_error_toAbsolute (hcongr ▸ hres)]
+  | ok ro =>
+    cases ro with
+    | none =>
+      rw [getArray_norange (ne_nil_of_span hspan1) hres,
+        getArray_norange (ne_nil_of_span hspan2) (hcongr ▸ hres), hrows]
+    | some r =>
+      have hr := hproper r hres
+      rw [getArray_range h1 (ne_nil_of_span hspan1) hm hres,
+        getArray_range h2 (ne_nil_of_span hspan2) hm (hcongr ▸ hres), hrows]
+      have e1 := all_pruned_iff h1 hspan1 hr
+      have e2 := all_pruned_iff h2 hspan2 hr
+      have : s1.all (fun c => pruned c r) = s2.all (fun c => pruned c r) := by
+        rw [Bool.eq_iff_iff, List.all_eq_true, List.all_eq_true, e1, e2]
+      rw [this]
+
+example : RealMode Mode.touching ∧ (∀ r, toAbsolute exLayout { timeRange := some (11, 21) } = .ok (some r) → r.1 < r.2) := by
+  refine ⟨Or.inr rfl, ?_⟩
+  intro r h
+  injection h with h; injection h with h; subst h; decide
+
+/-- Negation witness for the excluded region: for the EMPTY range `(16, 16)` the three-chunk layout
+(16 is a chunk boundary, every chunk pruned) raises `ValueError`, the one-chunk layout of the same rows
+returns an empty result.  Reproduced on the real code (known finding
+`C10-empty-range-error-depends-on-chunking`). -/
+theorem degenerate_range_depends_on_chunking :
+    LawAbiding exLayout ∧ LawAbiding exGiant ∧ allRows exLayout = allRows exGiant ∧
+    span exLayout = span exGiant ∧
+    getArray ["time", "endtime", "id"] exLayout { timeRange := some (16, 16) } {} = .error .valueError ∧
+    getArray ["time", "endtime", "id"] exGiant { timeRange := some (16, 16) } {}
+      = .ok ([], ["time", "endtime", "id"]) := by decide +kernel
+
+/-! ## 6. time arguments as integer arithmetic -/
+
+theorem toAbsolute_time_range (s : List Chunk) (r : Range) :
+    toAbsolute s { timeRange := some r } = .ok (some r) := rfl
+
+theorem toAbsolute_time_within (s : List Chunk) (w : Range) :
+    toAbsolute s { timeWithin := some w } = .ok (some w) := rfl
+
+theorem toAbsolute_seconds (s : List Chunk) (a b : Sec) (t0 : Int) (h : runStart s = .ok t0) :
+    toAbsolute s { secondsRange := some (a, b) } = .ok (some (t0 + a.toNs, t0 + b.toNs)) := by
+  simp [toAbsolute, h]
+
+theorem toAbsolute_all_three (s : List Chunk) (r w : Range) (a b : Sec) :
+    toAbsolute s { timeRange := some r, secondsRange := some (a, b), timeWithin := some w } = .error .runtimeError :=
+  rfl
+
+/-- the run start used for `seconds_range` is the first chunk start floored to a whole second -/
+theorem runStart_floor (c : Chunk) (rest : List Chunk) (t0 : Int) (h : runStart (c :: rest) = .ok t0) :
+    t0 ≤ c.start ∧ c.start < t0 + 1000000000 ∧ t0 % 1000000000 = 0 := by
+  simp only [runStart, nsPerS, Except.ok.injEq] at h
+  omega
+
+/-- whole nanoseconds are converted exactly -/
+theorem sec_toNs_exact (n : Int) : (Sec.mk n 1000000000).toNs = n := by
+  simp only [Sec.toNs, nsPerS]
+  exact Int.mul_tdiv_cancel_left n (by decide)
+
+example : toAbsolute exLayout { secondsRange := some (⟨11, 1000000000⟩, ⟨1, 2⟩) } = .ok (some (11, 500000000)) := by
+  decide +kernel
+
+/-! ## 7. a partial request never saves -/
+
+/-- `check_cache`: whenever a time range, a selection or a column projection is present, nothing
+is saved: the plan is never `computeSave`; stored data is always just loaded. -/
+theorem partial_request_never_saves (stored : Bool) (sw : SaveWhen) (isTarget inSave hasRange hasSel hasCols : Bool)
+    (h : savePlan stored sw isTarget inSave hasRange hasSel hasCols = .ok .computeSave) :
+    hasRange = false ∧ hasSel = false ∧ hasCols = false ∧ stored = false := by
+  cases stored <;> cases sw <;> cases isTarget <;> cases inSave <;> cases hasRange <;> cases hasSel <;>
+    cases hasCols <;> simp [savePlan, targetShouldBeSaved, SaveWhen.toNat] at h ⊢
+
+theorem stored_is_loaded (sw : SaveWhen) (isTarget inSave hasRange hasSel hasCols : Bool) :
+    savePlan true sw isTarget inSave hasRange hasSel hasCols = .ok .load := rfl
+
+/-- a time range on data that is not stored and would be saved by default is refused -/
+theorem range_on_missing_data_refused (sw : SaveWhen) (isTarget inSave hasSel hasCols : Bool)
+    (h : sw = .target ∨ sw = .always) :
+    savePlan false sw isTarget inSave true hasSel hasCols = .error .dataNotAvailable := by
+  rcases h with rfl | rfl <;> rfl
+
+example : savePlan false .always true false false false false = .ok .computeSave := rfl
 
 end Strax.C10
